@@ -332,9 +332,18 @@ def semCmd (args : List String) : String :=
     | _, _ => "bad-args"
   | _ => "bad-args"
 
+/-- `vm.loadfull <instr>…` → the model loader's image in wire form:
+`name=addr,…` then `\x1f`-separated instructions -/
+def loadFullCmd (args : List String) : String :=
+  let prog := args.map fun a => VmD.decodeInstr (decode a)
+  let img := Loader.load prog
+  ",".intercalate (img.routines.map fun (n, a) => encode (escP n) ++ "=" ++ toString a) ++ "\x1e" ++
+    "\x1f".intercalate (img.code.toList.map fun i => encode (encInstrWire i))
+
 def handle (cmd : String) (args : List String) : Option String :=
   match cmd with
   | "gen.prog" => some (genCmd args)
+  | "vm.loadfull" => some (loadFullCmd args)
   | "sem.run" => some (semCmd args)
   | _ => none
 
